@@ -25,3 +25,86 @@ package reporter
 //@   loop 2 invariant len(s.reports) == old(len(s.reports))
 //@   loop 2 invariant forall i int :: 0 <= i && i < len(s.reports) ==> s.reports[i].Problem == old(s.reports[i].Problem) && s.reports[i].Path == old(s.reports[i].Path)
 //@   safe
+
+// ---------------------------------------------------------------------------------------------
+// C17: pull-request commenting converges and is idempotent.
+// The platform (GitHub / GitLab / BitBucket) is abstract: IsEqual / CanCreate / CanDelete are uninterpreted pure
+// predicates of their arguments; Create / Delete / Summary / Describe have no effect on pint's own comment lists
+// (assumed contracts on the Commenter interface, A7).
+
+//@ spec func eq(c Commenter, dst any, e ExistingComment, p PendingComment) bool
+//@ spec func canCreate(c Commenter, n int) bool
+//@ spec func canDelete(c Commenter, e ExistingComment) bool
+
+//@ func Commenter.IsEqual
+//@   pure
+//@   ensures result == eq(self, arg0, arg1, arg2)
+//@ func Commenter.CanCreate
+//@   pure
+//@   ensures result == canCreate(self, arg0)
+//@ func Commenter.CanDelete
+//@   pure
+//@   ensures result == canDelete(self, arg0)
+//@ func Commenter.Create
+//@   pure
+//@ func Commenter.Delete
+//@   pure
+//@ func Commenter.Summary
+//@   pure
+//@ func Commenter.Describe
+//@   pure
+//@ func Commenter.List
+//@   pure
+
+//@ spec func hasEqualExisting(c Commenter, dst any, es []ExistingComment, p PendingComment) bool = exists j int :: 0 <= j && j < len(es) && eq(c, dst, es[j], p)
+//@ spec func hasEqualPending(c Commenter, dst any, e ExistingComment, ps []PendingComment) bool = exists k int :: 0 <= k && k < len(ps) && eq(c, dst, e, ps[k])
+
+// (In at/after clauses on interface calls arg0 is the receiver, arg1.. the arguments.)
+// Ghost state: E / P are the existing and pending comment lists; C / D the sets of created and deleted comments;
+// W the pending comments whose creation was deferred by the budget; creates counts successful creations.
+//@ func updateDestination [C17]
+//@   ghost E []ExistingComment
+//@   ghost P []PendingComment
+//@   ghost C set[PendingComment]
+//@   ghost W set[PendingComment]
+//@   ghost D set[ExistingComment]
+//@   ghost creates int
+//@   after call List set E = result0
+//@   after call makeComments set P = result0
+//@   after call Create set C = (result0 == nil ? with(C, arg3) : C)
+//@   after call Create set creates = (result0 == nil ? creates + 1 : creates)
+//@   after call CanCreate set W = (result0 ? W : with(W, pending))
+//@   after call Delete set D = with(D, arg3)
+//@   at call Create assert arg3 == P[iter1-1] && arg2 == dst && !hasEqualExisting(c, dst, E, arg3) && canCreate(c, creates)
+//@   at call Delete assert arg3 == E[iter3-1] && arg2 == dst && canDelete(c, arg3) && !hasEqualPending(c, dst, arg3, P)
+//@   at call CanCreate assert arg1 == creates
+//@   loop 1 invariant 0 <= iter && iter <= len(P) && created == creates && creates >= 0 && existingComments == E && pendingComments == P && errs == nil
+//@   loop 1 invariant forall k int :: 0 <= k && k < iter ==> hasEqualExisting(c, dst, E, P[k]) || member(C, P[k]) || member(W, P[k])
+//@   loop 1 invariant forall e ExistingComment :: !member(D, e)
+//@   loop 2 invariant 0 <= iter && iter <= len(E) && 1 <= iter1 && iter1 <= len(P) && created == creates && creates >= 0 && existingComments == E && pendingComments == P && pending == P[iter1-1] && errs == nil
+//@   loop 2 invariant forall j int :: 0 <= j && j < iter ==> !eq(c, dst, E[j], pending)
+//@   loop 2 invariant forall k int :: 0 <= k && k < iter1-1 ==> hasEqualExisting(c, dst, E, P[k]) || member(C, P[k]) || member(W, P[k])
+//@   loop 2 invariant forall e ExistingComment :: !member(D, e)
+//@   loop 3 invariant 0 <= iter && iter <= len(E) && existingComments == E && pendingComments == P
+//@   loop 3 invariant forall k int :: 0 <= k && k < len(P) ==> hasEqualExisting(c, dst, E, P[k]) || member(C, P[k]) || member(W, P[k])
+//@   loop 3 invariant forall j int :: 0 <= j && j < iter && !hasEqualPending(c, dst, E[j], P) && canDelete(c, E[j]) ==> member(D, E[j])
+//@   loop 4 invariant 0 <= iter && iter <= len(P) && 1 <= iter3 && iter3 <= len(E) && existingComments == E && pendingComments == P && existing == E[iter3-1]
+//@   loop 4 invariant forall k int :: 0 <= k && k < iter ==> !eq(c, dst, existing, P[k])
+//@   loop 4 invariant forall k int :: 0 <= k && k < len(P) ==> hasEqualExisting(c, dst, E, P[k]) || member(C, P[k]) || member(W, P[k])
+//@   loop 4 invariant forall j int :: 0 <= j && j < iter3-1 && !hasEqualPending(c, dst, E[j], P) && canDelete(c, E[j]) ==> member(D, E[j])
+//@   ensures err == nil ==> forall k int :: 0 <= k && k < len(P) ==> hasEqualExisting(c, dst, E, P[k]) || member(C, P[k]) || member(W, P[k])
+//@   ensures err == nil ==> forall j int :: 0 <= j && j < len(E) && !hasEqualPending(c, dst, E[j], P) && canDelete(c, E[j]) ==> member(D, E[j])
+
+// Platform predicates: at most maxComments creations per run; GitLab may delete its stale comments, GitHub never
+// deletes; two comments are equal iff same path, same line and same text modulo surrounding newlines.
+//@ func GithubReporter.CanCreate [C17]
+//@   ensures result <==> done < gr.maxComments
+//@ func GitLabReporter.CanCreate [C17]
+//@   ensures result <==> done < gl.maxComments
+//@ func GithubReporter.CanDelete [C17]
+//@   ensures !result
+//@ func GitLabReporter.CanDelete [C17]
+//@   ensures result
+//@ func GitLabReporter.IsEqual [C17]
+//@   ensures result <==> existing.path == pending.path && existing.line == pending.line &&
+//@              pureCall("strings.Trim", existing.text, "\n") == pureCall("strings.Trim", pending.text, "\n")
